@@ -100,6 +100,14 @@ class PE:
             return K([v.v if isinstance(v, K) else v for v in vals])
         if isinstance(node, ast.Subscript):
             base = self.ev(node.value)
+            if isinstance(base, K) and isinstance(base.v, dict):
+                key = self.ev(node.slice)
+                if isinstance(key, K) and isinstance(key.v, str):
+                    if key.v not in base.v:
+                        raise Raised("KeyError", node)
+                    item = base.v[key.v]
+                    return item if isinstance(item, (RF, K)) else K(item)
+                self.err("dictionary key not constant: %s" % ast.unparse(node)[:60], node)
             if isinstance(base, K) and isinstance(base.v, (list, tuple, str)):
                 idx = self.ev(node.slice) if not isinstance(node.slice, ast.Slice) else None
                 if isinstance(idx, RF) and idx.is_const() and idx.constval().denominator == 1:
@@ -176,6 +184,15 @@ class PE:
                 if r is not None:
                     return r
             f = node.func
+            if isinstance(f, ast.Attribute) and f.attr == "get" and 1 <= len(node.args) <= 2:
+                recv = self.ev(f.value)
+                if isinstance(recv, K) and isinstance(recv.v, dict):
+                    key = self.ev(node.args[0])
+                    if isinstance(key, K) and isinstance(key.v, str):
+                        if key.v in recv.v:
+                            item = recv.v[key.v]
+                            return item if isinstance(item, (RF, K)) else K(item)
+                        return self.ev(node.args[1]) if len(node.args) == 2 else K(None)
             if isinstance(f, ast.Attribute) and f.attr == "format" and not node.keywords:
                 recv = self.ev(f.value)
                 args = [self.ev(a) for a in node.args]
@@ -398,6 +415,17 @@ class PE:
         if isinstance(t, ast.Name):
             self.bind(t.id, v)
             return
+        if isinstance(t, ast.Subscript):
+            base = self.ev(t.value)
+            key = self.ev(t.slice)
+            if isinstance(base, K) and isinstance(base.v, dict) and isinstance(key, K) and isinstance(key.v, str):
+                base.v[key.v] = v
+                return
+        if isinstance(t, ast.Attribute):
+            ch = attr_chain(t)
+            if ch:
+                self.attrs[".".join(ch)] = v
+                return
         if isinstance(t, (ast.Tuple, ast.List)) and isinstance(v, K) and isinstance(v.v, (list, tuple)) and len(v.v) == len(t.elts):
             for tt, item in zip(t.elts, v.v):
                 self.store(tt, item if isinstance(item, RF) else K(item), s)
